@@ -780,7 +780,7 @@ impl Callbacks for Dump {
                 if let Ok(cv) = tcx.const_eval_poly(*did) {
                     match cv {
                         ConstValue::Scalar(mir::interpret::Scalar::Int(si)) => push_scalar_int(si, ty, &mut o),
-                        ConstValue::Slice { .. } => {
+                        ConstValue::Slice { .. } | ConstValue::Indirect { .. } if is_str_ref(ty) => {
                             if let Some(bytes) = cv.try_get_slice_bytes_for_diagnostics(tcx) {
                                 if let Ok(s) = std::str::from_utf8(bytes) {
                                     o.push(("s", J::Str(s.to_string())));
@@ -816,6 +816,10 @@ impl Callbacks for Dump {
         std::fs::rename(&tmp, &path).expect("rename facts");
         Compilation::Continue
     }
+}
+
+fn is_str_ref(ty: Ty<'_>) -> bool {
+    matches!(ty.kind(), ty::Ref(_, inner, _) if inner.is_str())
 }
 
 struct Plain;
